@@ -65,7 +65,12 @@ let swev = function
   | F -> L [A "f"]
 let c08_case = function
   | L [A "c08"; L sc; L hs] ->
-    let hs = List.map (function L [L pre; L post] -> (List.map wop pre, List.map wop post) | x -> failwith ("c08: bad handler " ^ to_string x)) hs in
+    (* (pre () stdK): the handler is a net/http handler behind one of rux's adaptors; it cannot call Next, the rest of
+       the chain follows it automatically: same flattened order *)
+    let hs = List.map (function
+        | L [L pre; L post] -> (List.map wop pre, List.map wop post)
+        | L [L pre; L []; A ("std0" | "std1" | "std2" | "std3" | "std4" | "std5")] -> (List.map wop pre, [])
+        | x -> failwith ("c08: bad handler " ^ to_string x)) hs in
     let ops = List.concat (List.map fst hs) @ List.concat (List.rev_map snd hs) in
     (List.map nat sc, ops)
   | x -> failwith ("c08: bad case " ^ to_string x)
